@@ -19,7 +19,7 @@ import os
 import re
 import unicodedata
 
-from ..core import (AnalysisError, VERIF_DIR, short, unparse, iter_own, call_name, call_recv, kwarg,
+from ..core import (AnalysisError, VERIF_DIR, short, unparse, iter_own, call_name, call_recv, kwarg, parents,
                     is_self_attr, const_value)
 from .. import tables
 from . import c13
@@ -263,6 +263,11 @@ def compute(repo):
     return mod, res
 
 
+PROBES = ['\\textemdash', 'a\\b', '\\"\\cyra', '\\`\\CYRE', 'abc', '\\%', '{\\a}', '\\a{}',
+          '\\a ', '\\ABC', 'x\\abc', '', '\\', '\\1', '\\c{c}', '\\cyrchar\\CYROMEGA',
+          '\\ensuremath{\\alpha}', '\\textbackslash', "\\'e", '\\i']
+
+
 def protection_probes(ctx, rule, m, a, b):
     # the test itself, evaluated by the checker's own interpreter on probe replacement texts
     probes = ['\\textemdash', 'a\\b', '\\"\\cyra', '\\`\\CYRE', 'abc', '\\%', '{\\a}', '\\a{}',
@@ -387,6 +392,26 @@ def _protects(m, f, text):
                 if isinstance(e.func.value, ast.Name) and e.func.value.id == 're' and \
                         cn in ('match', 'search', 'fullmatch') and e.args and isinstance(e.args[0], ast.Constant):
                     return getattr(re, cn)(e.args[0].value, *[ev(x) for x in e.args[1:]])
+                if isinstance(e.func.value, ast.Name) and e.func.value.id == 'self' and not e.keywords:
+                    cls_ = [p_ for p_ in parents(f) if isinstance(p_, ast.ClassDef)]
+                    hm = [x for x in (cls_[0].body if cls_ else []) if isinstance(x, ast.FunctionDef) and x.name == cn]
+                    if hm:
+                        h = hm[0]
+                        hp = [x.arg for x in h.args.args][1:]
+                        if len(hp) != len(e.args):
+                            raise _CannotEval('helper arity')
+                        saved = dict(env)
+                        vals = [ev(x) for x in e.args]
+                        env.clear()
+                        env.update(zip(hp, vals))
+                        try:
+                            r = run_block(h.body, value=True)
+                        finally:
+                            env.clear()
+                            env.update(saved)
+                        if r is None:
+                            raise _CannotEval('helper without return')
+                        return r[1]
                 recv = ev(e.func.value)
                 if isinstance(recv, str) and cn in ('rfind', 'find', 'isalpha', 'endswith', 'startswith',
                                                      'isalnum', 'rstrip', 'lstrip', 'strip', 'index',
@@ -508,8 +533,22 @@ def run(ctx):
             parts.append(unparse(s))
         return '; '.join(parts).replace(p, 'REPL')
     pa, pb = predicate(a), predicate(b)
-    ctx.decide('R08b', pa == pb, m, a,
-               'both schemes use the same dangling-control-word test: %s' % pa,
+    agree, agree_why = (pa == pb), ''
+    if not agree:
+        # written differently (one test moved into a helper, say): compared by value on the probe texts
+        try:
+            diff_ = [pr for pr in PROBES if _protects(m, a, pr) != _protects(m, b, pr)]
+            agree = not diff_
+            agree_why = 'differ on %r' % diff_[:3] if diff_ else 'equal on all %d probe texts' % len(PROBES)
+        except _CannotEval as e:
+            agree = None
+            agree_why = str(e)
+    if agree is None:
+        ctx.unknown('R08b', m, a, 'the two dangling-control-word tests are written differently and one is not '
+                    'evaluable (%s)' % agree_why, construct='dangling-control-word test (sibling agreement)')
+    else:
+        ctx.decide('R08b', agree, m, a,
+               'both schemes use the same dangling-control-word test: %s %s' % (pa, agree_why),
                'the two protection schemes disagree on what a dangling control word is: braces uses '
                '`%s`, braces-after-macro uses `%s`; one of them leaves some replacement that ends with '
                'a control word unprotected, so it fuses with / swallows the following characters'
@@ -636,6 +675,17 @@ def run(ctx):
                'string interactions and are not decided; the abstract decoder models control '
                'words/symbols, groups, single-token arguments, %s replacements, accents, math '
                'alphabets and specials')
+    # ---- R08h (C13 R13g) and R08i (C03 R03d/R03f)
+    ctx.rule('R08h', 'the built-in encoder tables are never handed out as such (the legacy utf82latex dictionary is a '
+                     'copy): nobody can edit the table every encoder reads, so a character keeps the encoding that '
+                     'latex2text inverts (C13 R13g)', 2)
+    from .. import core as _core
+    _core.run_proxied(ctx, c13, 'R08h', ('R13g',))
+    ctx.rule('R08i', 'the whitespace policy for formulas is pushed per formula inside a with statement and popped when '
+                     'the formula ends: text after a formula is rendered with the document policy again (C03 R03d, R03f)', 2)
+    from . import c03 as _c03
+    _core.run_proxied(ctx, _c03, 'R08i', ('R03d', 'R03f'))
+
     return 'other', (
         'Evaluates the default encoder table against the evaluated default walker and latex2text '
         'tables with an abstract decoder: %d of %d entries decode to their own character, %d are '
